@@ -270,8 +270,9 @@ class CircuitTemplate(AbstractBaseTemplate):
         node_vars
             Dictionary with keys being pointers to variable names on nodes, using the `*circuit/node/op/var` notation.
         edge_vars
-            List with edge tuples that contain: (1) a source node name, (2) a target node name, and (3) a dictionary
-            with edge attributes. The latter can be used to update edge attributes.
+            List with edge tuples that contain: (1) a source node name, (2) a target node name, (3) a dictionary
+            with edge attributes, and optionally (4) the index of the edge among all edges from source to target
+            (default: 0). The dictionary can be used to update edge attributes.
 
         Returns
         -------
@@ -298,14 +299,16 @@ class CircuitTemplate(AbstractBaseTemplate):
                 self.add_node_template(n, template=node_temp)
 
         # updates to edge variable values
-        for source, target, edge_dict in edge_vars:
+        for source, target, edge_dict, *edge_idx in edge_vars:
+            # an optional 4th entry selects one of several edges between the same pair of variables
+            idx = edge_idx[0] if edge_idx else 0
             # edge tuples and their attribute dictionaries are shared with the templates this one was derived from:
             # replace the edge by an updated copy instead of writing into the shared dictionary
-            old_edge = self.get_edge(source, target)
+            old_edge = self.get_edge(source, target, idx)
             s, t, template, base_dict = old_edge
             new_edge = (s, t, template, {**base_dict, **edge_dict})
             self.edges = [new_edge if edge is old_edge else edge for edge in self.edges]
-            self._edge_map[(source, target, 0)] = new_edge
+            self._edge_map[(source, target, idx)] = new_edge
 
         return self
 
